@@ -119,7 +119,8 @@ def pcgrad_margin(J: np.ndarray, orders: list[list[int]]) -> float:
                 continue
             ip = g @ J[j]
             den = np.linalg.norm(g) * np.linalg.norm(J[j])
-            margin = min(margin, abs(ip) / den if den > 0 else 0.0)
+            if den > 0:  # a zero vector gives an exactly zero inner product: the branch is not ambiguous
+                margin = min(margin, abs(ip) / den)
             if ip < 0:
                 g = g - ip / (J[j] @ J[j]) * J[j]
     return margin
